@@ -80,8 +80,8 @@ func makePeerConnectionFromOffer(sdp *webrtc.SessionDescription,
 
 	err = pc.SetLocalDescription(answer)
 	if err != nil {
-		if err = pc.Close(); err != nil {
-			log.Printf("pc.Close after setting local description returned : %v", err)
+		if inerr := pc.Close(); inerr != nil {
+			log.Printf("pc.Close after setting local description returned : %v", inerr)
 		}
 		return nil, err
 	}
